@@ -95,7 +95,7 @@ def run(ctx):
     ctx.neg("ClusterRefMC", "ClusterRefNeg2.cfg", expect="I_CommitOnce", workers=2)
     binary = ctx.go_build("internal/xds/resolver", name="c51", only=r"zz_verif_c51_")
     g = ctx.dump_graph("ClusterRefMC", "ClusterRefGen.cfg")
-    behs = [with_tail(b) for b in ctx.edge_cover(g, step_of, limit=ctx.pick(600, 6000))]
+    behs = [with_tail(b) for b in ctx.edge_cover(g, step_of, limit=ctx.pick(600, 4000))]
     bpath = os.path.join(ctx.run, "beh.ndjson")
     tpath = os.path.join(ctx.run, "trace-replay.ndjson")
     write_ndjson(bpath, behs)
